@@ -198,23 +198,19 @@ func (ex *Exec) feasible(c *smt.Term) bool {
 	}
 	t0 := time.Now()
 	var r smt.Result
-	if smt.Relaxable(as) {
+	r, _, _ = smt.Check(ex.P.QuickSolver, as, false, ex.P.QuickLimit/2)
+	if r == smt.Unknown && smt.Relaxable(as) {
 		// real relaxation: unsat is exact, sat over-approximates feasibility
 		r, _ = smt.CheckRelaxed(ex.P.QuickSolver, as, ex.P.QuickLimit)
 		if r == smt.Unknown && ex.P.QuickFallback {
 			r, _ = smt.PortfolioRelaxed(as, ex.P.QuickLimit*2)
 		}
-		ex.P.cachePut(key, r)
-		ex.P.noteBranch(r)
-		return r != smt.Unsat
+	} else if r == smt.Unknown && ex.P.QuickFallback {
+		r, _, _, _ = smt.Portfolio(as, false, ex.P.QuickLimit*2, false)
 	}
-	r, _, _ = smt.Check(ex.P.QuickSolver, as, false, ex.P.QuickLimit)
 	if os.Getenv("GSX_DEBUG") == "slow" && time.Since(t0) > 1500*time.Millisecond {
 		sc, _ := smt.Script(as, false)
 		os.WriteFile(fmt.Sprintf("/tmp/gsx-slow-%d.smt2", time.Now().UnixNano()), []byte(sc), 0o644)
-	}
-	if r == smt.Unknown && ex.P.QuickFallback {
-		r, _, _, _ = smt.Portfolio(as, false, ex.P.QuickLimit*2, false)
 	}
 	ex.P.cachePut(key, r)
 	ex.P.noteBranch(r)
